@@ -67,7 +67,9 @@ def check_C12(tier, seed):
         what = {"atom": f"atom '{e.get('path')}' of {e.get('type')} is not bound by the challenge (in_transcript={e.get('in_transcript')}, challenge changed={e.get('changed')})",
                 "pair": f"builder / prover challenge differs from proof / verifier challenge for {e.get('type')}",
                 "hash": f"challenge of {e.get('type')} is not SHA3-256(transcript) reduced",
-                "ctxbyte": f"context byte {e.get('pos')} of the {e.get('proof')} proof does not influence the challenge"}.get(e["ev"], "event rejected")
+                "ctxbyte": f"context byte {e.get('pos')} of the {e.get('proof')} proof does not influence the challenge",
+                "ctxset": f"{e.get('contexts')} different contexts give only {e.get('distinct_challenges')} different challenges for one {e.get('proof')} proof",
+                "hash": f"challenge of {e.get('type')}: with() and consume() disagree: {not e.get('with_eq_consume', True)}"}.get(e["ev"], "event rejected")
         raise Violation("C12", what, {"kind": "transcript", "property": "C12", "seed": seed, "tier": tier, "event": e})
     types = sorted(bytype)
     atoms_n = sum(1 for e in events if e["ev"] == "atom" and e["role"] == "nonresponse")
